@@ -66,11 +66,13 @@ fn new_bytecode<'gc>(
     let globals = module_globals
         .into_iter()
         .map(|index| {
+            // Bytecode which has been loaded from a serialized form may refer to globals which
+            // are not defined in this vm
             env.get_global(index.definition_name())
-                .expect("ICE: Global is missing from environment")
-                .value
+                .map(|global| global.value)
+                .ok_or_else(|| Error::UndefinedBinding(index.definition_name().into()))
         })
-        .collect::<Vec<_>>();
+        .collect::<Result<Vec<_>>>()?;
 
     // SAFETY No collection are done while we create these functions
     unsafe {
